@@ -109,8 +109,9 @@ func factsStore() {
 	ps, f2 := bodyText("storage/partition.go", "partition", "processSnapshot")
 	if f1 == nil || f2 == nil {
 		unrec("snapshot_is_index_save", "bool", "snapshot/processSnapshot not found")
-	} else if strings.Contains(sn, "this.index.Save(&buf, false)") && strings.Contains(sn, "return buf.Bytes(), nil") &&
-		strings.Contains(ps, "this.index.Load(bytes.NewBuffer(data), false)") {
+	} else if strings.HasPrefix(sn, "{ var buf bytes.Buffer if err := this.index.Save(&buf, false); err != nil { return nil, err }") && strings.HasSuffix(sn, "return buf.Bytes(), nil }") &&
+		strings.HasPrefix(ps, "{ err := this.index.Load(bytes.NewBuffer(data), false)") && strings.HasSuffix(ps, "return err }") &&
+		strings.Count(ps, "return") == 1 && strings.Count(sn, "return") == 2 {
 		known("snapshot_is_index_save", "bool", "true", "partition.snapshot = index.Save(buf, false); processSnapshot = index.Load(data, false)")
 	} else {
 		unrec("snapshot_is_index_save", "bool", "snapshot/processSnapshot changed")
